@@ -5,6 +5,8 @@ IkeSaController.main_loop, one iteration at a time (DESIGN.md 2.3).
 import copy
 import ipaddress
 import logging
+import os
+import signal
 import socket
 
 from . import seams
@@ -26,6 +28,17 @@ REQ_SENT_STATES = (State.INIT_REQ_SENT, State.AUTH_REQ_SENT, State.NEW_CHILD_REQ
 
 class HarnessError(Exception):
     """A problem of the harness itself (never reported as a property violation)."""
+
+
+class Wedged(BaseException):
+    """Raised (by an interval timer) inside a main_loop iteration that does not come back: the daemon would hang."""
+
+
+ITERATION_WATCHDOG_S = float(os.environ.get('VERIF_ITERATION_WATCHDOG', '10'))
+
+
+def _wedged(signum, frame):
+    raise Wedged('one main_loop iteration ran for more than %.0f s of CPU-unbounded wall time' % ITERATION_WATCHDOG_S)
 
 
 class _LogCapture(logging.Handler):
@@ -199,6 +212,14 @@ class World:
         CTX.readable = readable
         CTX.select_calls = 0
         CTX.dh_calls = 0
+        # a main_loop iteration normally takes about a millisecond; one that does not return within the watchdog time is
+        # a hang of the daemon (reported like an escaping exception), and must not hang the check
+        try:
+            old = signal.signal(signal.SIGALRM, _wedged)
+            signal.setitimer(signal.ITIMER_REAL, ITERATION_WATCHDOG_S)
+            armed = True
+        except ValueError:       # not in the main thread
+            armed = False
         try:
             ep.controller.main_loop()
             raise HarnessError('main_loop returned')
@@ -211,6 +232,9 @@ class World:
             ep.alive = False
             ep.dead_reason = (type(ex).__name__, str(ex)[:300], traceback.format_exc()[-1200:])
         finally:
+            if armed:
+                signal.setitimer(signal.ITIMER_REAL, 0)
+                signal.signal(signal.SIGALRM, old)
             self.step_dh_calls = CTX.dh_calls
             self._leave()
             if self.all_logs is not None:
